@@ -1,6 +1,7 @@
 package rules
 
 import (
+	"go/token"
 	"go/types"
 
 	"gldapverif/an"
@@ -240,13 +241,60 @@ func (c *Ctx) checkEntryOrder() {
 				}
 			}
 			if after && ci.Block().Dominates(head) {
-				// the sorted slice is the one ranged over: the loop's bound is len(sortedSlice)
+				// the order must be a function of the key set: a total order on distinct strings
+				if okTotal, why := totalStringOrder(cc); !okTotal {
+					R.Fail("C16-order", "NewEntry: names sorted by a total order", c.pos(ci), "the names are sorted with a comparison that "+why+": two distinct attribute names can compare equal, and an unstable sort then leaves them in map-iteration order, which differs from call to call")
+				} else {
+					R.OK("C16-order", "NewEntry: names sorted by a total order", c.pos(ci), why)
+				}
 				sorted = true
-				_ = cc
 			}
 		}
 	}
 	R.Check(sorted, "C16-order", "NewEntry: attribute order independent of map iteration", c.pos(appendCall), "names collected from the map are sorted before the loop that builds Attributes", "the names are not sorted between the map iteration and building Attributes: order is not deterministic")
+}
+
+// totalStringOrder: the sort call orders a []string by the natural (byte-wise)
+// order of the strings themselves, under which distinct map keys never compare
+// equal.
+func totalStringOrder(cc *ssa.CallCommon) (bool, string) {
+	f := cc.StaticCallee()
+	if f == nil {
+		return false, "cannot be resolved"
+	}
+	switch an.FuncPkgPath(f) + "." + f.Name() {
+	case "sort.Strings":
+		return true, "sort.Strings: byte-wise order, total on distinct names"
+	case "slices.Sort", "golang.org/x/exp/slices.Sort":
+		return true, "slices.Sort: natural order, total on distinct names"
+	case "sort.Slice", "sort.SliceStable":
+		mc, ok := cc.Args[1].(*ssa.MakeClosure)
+		if !ok {
+			return false, "is not a function literal"
+		}
+		less := mc.Fn.(*ssa.Function)
+		elem := func(v ssa.Value, p *ssa.Parameter) bool {
+			ld, ok := v.(*ssa.UnOp)
+			if !ok || ld.Op != token.MUL {
+				return false
+			}
+			ia, ok := ld.X.(*ssa.IndexAddr)
+			return ok && ia.Index == ssa.Value(p) && an.Path(an.Strip(ia.X)) == an.Path(an.Strip(cc.Args[0]))
+		}
+		rets := an.Returns(less)
+		if len(rets) != 1 || len(less.Params) != 2 {
+			return false, "has more than one return"
+		}
+		bo, ok := an.ReturnResults(rets[0])[0].(*ssa.BinOp)
+		if !ok || (bo.Op != token.LSS && bo.Op != token.GTR) {
+			return false, "is not a plain < or > of two elements"
+		}
+		if elem(bo.X, less.Params[0]) && elem(bo.Y, less.Params[1]) || elem(bo.X, less.Params[1]) && elem(bo.Y, less.Params[0]) {
+			return true, "sort.Slice with s[i] < s[j] on the names themselves: total on distinct names"
+		}
+		return false, "does not compare the names themselves (" + bo.X.String() + " " + bo.Op.String() + " " + bo.Y.String() + ")"
+	}
+	return false, "is " + f.String() + ", not a known total order on strings"
 }
 
 // checkPairedValues: every function that stores EntryAttribute.Values also
